@@ -449,11 +449,11 @@ int main(int argc, char** argv) {
             Vec3 p3 = M.findNearestPoint(q, in3, face, uv);
             bool faceOK = run.expect(face >= 0 && face < M.getNumFaces(), "mesh-nearest-face-index", [&] { return "face index " + std::to_string(face) + " at " + where(); }, rp);
             if (faceOK) {
-                run.residual("mesh-nearest-uv-names-point", (M.findPoint(face, uv) - p3).norm() / L, 1e-13, where, rp);
+                run.residual("mesh-nearest-uv-names-point", (M.findPoint(face, uv) - p3).norm() / L, 1e-12, where, rp);
                 run.expect(uv[0] >= -1e-12 && uv[1] >= -1e-12 && uv[0] + uv[1] <= 1 + 1e-12, "mesh-nearest-uv-in-triangle", [&] { return "uv outside the triangle at " + where(); }, rp);
                 Vec2 uvf(NaN); Vec3 pf = M.findNearestPointToFace(q, face, uvf); Vec3 cp;
                 double d2 = gk::closestPtTriangle(q, S.mesh.v[S.mesh.f[face][0]], S.mesh.v[S.mesh.f[face][1]], S.mesh.v[S.mesh.f[face][2]], cp);
-                run.residual("mesh-nearest-point-to-face", std::abs((q - pf).norm() - std::sqrt(d2)) / L, 1e-13, where, rp);
+                run.residual("mesh-nearest-point-to-face", std::abs((q - pf).norm() - std::sqrt(d2)) / L, 1e-12, where, rp);
             }
             run.expect(p3 == p && in3 == in1, "mesh-nearest-overloads-agree", [&] { return "the two findNearestPoint overloads disagree at " + where(); }, rp);
         }
